@@ -428,14 +428,21 @@ func (a *axSetup) sideOfLimit(raw, limit int64) (sign int, hi, lo bool) {
 		v = rat{v.n*100 - a.p*v.d, v.d * (100 - a.p)}
 	}
 	f := flipExact(v, canNeg, a.flip)
+	if !canNeg {
+		// plain unsigned axis: the bidirectional position is 2v-1 (the learning threshold applies to v itself)
+		hi = 1000*absI(f.n) >= 501*f.d
+		lo = 1000*absI(f.n) <= 499*f.d
+		f = rat{2*f.n - f.d, f.d}
+	} else {
+		hi = 1000*absI(f.n) >= 501*f.d
+		lo = 1000*absI(f.n) <= 499*f.d
+	}
 	switch {
 	case f.n > 0:
 		sign = 1
 	case f.n < 0:
 		sign = -1
 	}
-	hi = 1000*absI(f.n) >= 501*f.d
-	lo = 1000*absI(f.n) <= 499*f.d
 	return
 }
 
@@ -445,7 +452,7 @@ func (a *axSetup) sideOfLimit(raw, limit int64) (sign int, hi, lo bool) {
 // after every event of every history (base: fresh device, receiver controllers at 0).
 func HarnessC07Step() {
 	a := buildAX(axCCBi)
-	verifrt.Assume(a.min < 0 || a.dzCenter)
+	// signed axes, unsigned axes centred by deadzone_at_center, and plain unsigned axes whose centre is mid-travel
 	d := &a.dev
 	zPos, zNeg := verifrt.Bool("pre.zeroed.pos"), verifrt.Bool("pre.zeroed.neg")
 	rPos, rNeg := verifrt.U8("pre.recv.pos"), verifrt.U8("pre.recv.neg")
